@@ -822,34 +822,35 @@ class VizierServicer(vizier_service_pb2_grpc.VizierServiceServicer):
         output_operation.should_stop = False  # Defaulted back to False.
         self.datastore.update_early_stopping_operation(output_operation)
 
-      study = self.datastore.load_study(study_name)
-      study_config = svz.StudyConfig.from_proto(study.study_spec)
-      study_descriptor = vz.StudyDescriptor(
-          config=study_config,
-          guid=study_name,
-          max_trial_id=self.datastore.max_trial_id(study_name),
-      )
-      early_stop_request = pythia.EarlyStopRequest(
-          study_descriptor=study_descriptor, trial_ids=[trial_resource.trial_id]
-      )
-      early_stop_request_proto = svz.EarlyStopConverter.to_request_proto(
-          early_stop_request
-      )
-      spec_name = (
-          study.study_spec.WhichOneof('automated_stopping_spec')
-          or 'default_stopping_spec'
-      )
-      if spec_name == 'default_stopping_spec':
-        # TODO: Add TSGP algorithm when open sourced.
-        early_stop_request_proto.algorithm = 'RANDOM_SEARCH'
-      else:
-        raise ValueError(
-            f'Misconfigured automated_stopping_spec: {study.study_spec}'
-        )
-
-      # Send request to Pythia. (Reaching the per-study Pythia server and
-      # converting its answer can fail like the algorithm itself.)
+      # Build the request and send it to Pythia. (Converting the stored study,
+      # reaching the per-study Pythia server and converting its answer can
+      # fail like the algorithm itself.)
       try:
+        study = self.datastore.load_study(study_name)
+        study_config = svz.StudyConfig.from_proto(study.study_spec)
+        study_descriptor = vz.StudyDescriptor(
+            config=study_config,
+            guid=study_name,
+            max_trial_id=self.datastore.max_trial_id(study_name),
+        )
+        early_stop_request = pythia.EarlyStopRequest(
+            study_descriptor=study_descriptor, trial_ids=[trial_resource.trial_id]
+        )
+        early_stop_request_proto = svz.EarlyStopConverter.to_request_proto(
+            early_stop_request
+        )
+        spec_name = (
+            study.study_spec.WhichOneof('automated_stopping_spec')
+            or 'default_stopping_spec'
+        )
+        if spec_name == 'default_stopping_spec':
+          # TODO: Add TSGP algorithm when open sourced.
+          early_stop_request_proto.algorithm = 'RANDOM_SEARCH'
+        else:
+          raise ValueError(
+              f'Misconfigured automated_stopping_spec: {study.study_spec}'
+          )
+
         temp_pythia_service = self._select_pythia_service(
             study_config.pythia_endpoint
         )
